@@ -248,9 +248,12 @@ def _run(case: Dict[str, Any], sim: Sim, world: World) -> None:
         # the library must not be affected by that
         if specs and (uids[0] % 2 == 0):
             for d in out:
-                d["my_class"] = d.pop("class")
-                if uids[0] % 4 == 0:
-                    d.pop("gml", None)
+                try:
+                    d["my_class"] = d.pop("class")
+                    if uids[0] % 4 == 0:
+                        d.pop("gml", None)
+                except (TypeError, AttributeError):
+                    pass                                   # read-only entries are fine
             sim.probe("caller_postprocessed_returned_entries")
 
     for op in case["ops"]:
